@@ -137,9 +137,9 @@ theorem timer_roots_enqueue (t : Nat) (ht : t ∈ graph.timerRoots) :
 
 /-- non-vacuity of the graph theorems: there are spawned goroutines, service sites, consumer
 loops, timer goroutines, invocation points and posted closures in the generated graph -/
-example : (spawnedRoots graph).length ≥ 2 ∧ (svcNodes graph).length > 10 ∧
-    (consumerRoots graph).length ≥ 1 ∧ graph.timerRoots.length ≥ 1 ∧ (loopSites graph).length > 8 ∧
-    (postedLits graph).length ≥ 3 := by
+example : (spawnedRoots graph).length ≥ 1 ∧ (svcNodes graph).length ≥ 5 ∧
+    (consumerRoots graph).length ≥ 1 ∧ graph.timerRoots.length ≥ 1 ∧ (loopSites graph).length ≥ 5 ∧
+    (postedLits graph).length ≥ 1 := by
   decide +kernel
 
 /-! ## what a violation looks like to the static half -/
